@@ -688,6 +688,21 @@ class CallMixin:
                 return Cell("list", sym=a.sym, fresh=True)
             if isinstance(a, Opaque):
                 return Opaque("list()", fresh=True)
+            if isinstance(a, Cell) and a.kind == "set" and a.sym is not None:
+                # list(S): some ordering of the members of S - exactly the members, each once
+                from .core import mem_fn
+                ety = a.sym.ty.args[0]
+                lty = TList(ety)
+                so = sort_of(lty)
+                r = z3.Const(ctx.fresh_name("lst_of_set"), so)
+                e = z3.Const(ctx.fresh_name("e"), sort_of(ety))
+                k, j = z3.Int(ctx.fresh_name("k")), z3.Int(ctx.fresh_name("j"))
+                ctx.assume(so.len(r) >= 0)
+                ctx.assume(z3.ForAll([e], mem_fn(lty)(r, e) == z3.Select(a.sym.t, e)))
+                ctx.assume(z3.ForAll([k], z3.Implies(z3.And(0 <= k, k < so.len(r)), z3.Select(a.sym.t, z3.Select(so.data(r), k)))))
+                ctx.assume(z3.ForAll([k, j], z3.Implies(z3.And(0 <= k, k < j, j < so.len(r)),
+                                                        z3.Select(so.data(r), k) != z3.Select(so.data(r), j))))
+                return Cell("list", sym=SV(lty, r), fresh=True)
             raise Unsupported("list() of symbolic iterable")
         if name == "tuple":
             items = self.iter_items_concrete(args[0]) if args else []
@@ -705,6 +720,8 @@ class CallMixin:
                 return Cell("set", conc=set(self._hashable(i) for i in items), fresh=True)
             if isinstance(a, Opaque):
                 return Opaque("set()", fresh=True)
+            if isinstance(a, Cell) and (getattr(a, "unknown", False) or a.sym is None):
+                return self.unknown_cell("set")
             if isinstance(a, Cell) and a.kind == "list":
                 ty = a.sym.ty
                 s = sort_of(ty)
